@@ -215,7 +215,7 @@ def mode_client():
     def client(delay, pause):
         time.sleep(delay)
         bad = 0
-        while not os.path.exists(stopfile) and bad < 50:
+        while not os.path.exists(stopfile) and bad < 3000:        # tolerate a server that is slow to come up under machine load
             try:
                 b = fetch(port)
                 bad = 0
@@ -276,6 +276,28 @@ def stop_clients(pr, outpath, stopfile):
     return bodies, errs
 
 
+def start_server_robust(sim, rng):
+    """start the built-in server on a free port; a port that was taken in the meantime is retried with another one"""
+    last = None
+    for _ in range(8):
+        port = free_port(rng)
+        try:
+            sim.start_server(port=port)
+        except RuntimeError as e:           # "Error binding to port"
+            last = e
+            try: sim.stop_server()
+            except Exception: pass
+            continue
+        for _ in range(400):                # wait until the server thread is accepting (up to 4 s more than the library's own 1 s)
+            try:
+                if sim._server_data and sim._server_data.contents.ready == 1: break
+            except Exception:
+                break
+            time.sleep(0.01)
+        return port
+    raise RuntimeError("could not start the server: %r" % (last,))
+
+
 def enter_workdir():
     d = tempfile.mkdtemp(prefix="c19srv")
     os.chdir(d)
@@ -331,8 +353,7 @@ def mode_server(p):
         errs = 0
         cl = None
         if with_server:
-            port = free_port(rng)
-            sim.start_server(port=port)
+            port = start_server_robust(sim, rng)
             cl = start_clients(port, wd, p["client_delays"][:p["clients"]], p["client_pauses"][:p["clients"]], bool(p.get("other_requests")))
             time.sleep(0.05)
         t = 0.0
@@ -428,8 +449,7 @@ def mode_torn(p):
     sim = mk()
     rec = set()
     sim.heartbeat = lambda sp: rec.add(key(sp.contents))
-    port = free_port(rng)
-    sim.start_server(port=port)
+    port = start_server_robust(sim, rng)
     cl = start_clients(port, wd, [0.0] * p["clients"], [0.0] * p["clients"], False)
     t0 = time.time(); T = 0.0; calls = 0
     while time.time() - t0 < p["seconds"]:
@@ -504,8 +524,7 @@ def mode_steps(p):
         ref.steps(1); rec.add(phys_key(ref))
     final_ref = phys_key(ref)
     sim = build(spec); sim.additional_forces = slow
-    port = free_port(rng)
-    sim.start_server(port=port)
+    port = start_server_robust(sim, rng)
     cl = start_clients(port, wd, [0.0] * p["clients"], [0.0] * p["clients"], False)
     time.sleep(0.05)
     if p.get("single_call", True):
@@ -554,8 +573,7 @@ def mode_fdclose(p):
                 bad.append((n, repr(e)[:120]))
         return n, bad
     n0, bad0 = cycle(p["seconds"] / 2.0)                 # control: no server traffic
-    port = free_port(rng)
-    a.start_server(port=port)
+    port = start_server_robust(a, rng)
     cl = start_clients(port, wd, [0.0] * p["clients"], [0.0] * p["clients"], False)
     time.sleep(0.05)
     n1, bad1 = cycle(p["seconds"])
